@@ -10,4 +10,6 @@ mkdir -p "$HERE/bin" "$HERE/evidence" "$HERE/replays"
 (cd /repo && go build ./... >/dev/null 2>&1 || true)
 # warm the race-detector build of the standard library and the library packages (C15's second build)
 (cd /repo && go build -race ./... >/dev/null 2>&1 || true)
+# warm the 32-bit build of the standard library and the library packages (C05's arch-386 domain)
+(cd /repo && GOARCH=386 go build ./... >/dev/null 2>&1 || true)
 echo "setup ok"
